@@ -572,6 +572,9 @@ def gen_handover_spec(rng: random.Random) -> dict:
     spec: dict[str, Any] = {"steps": steps, "externals": ext}
     if rng.random() < 0.1:
         spec["timeout"] = rng.choice([10, 30])
+    return spec
+
+
 def gen_handler_send_spec(rng: random.Random) -> dict:
     """a recovered lineage that continues through `ctx.send_event` instead of a return value (family "handler_send").
 
